@@ -36,6 +36,7 @@ class Model:
         self.validators = []   # (fieldnames, mode, FuncInfo, decorator ast)
         self.serializers = []  # (fieldnames, FuncInfo, decorator ast)
         self.model_validators = []
+        self.pending_members = []   # class-body assignments to be evaluated by the interpreter (resolve_members)
 
 
 class Schema:
@@ -93,7 +94,13 @@ class Schema:
                             f.default = k.value
                 m.fields[nm] = f
             elif isinstance(st, ast.Assign) and isinstance(st.value, ast.Call) and isinstance(st.value.func, ast.Name):
-                self._factory_member(m, st)
+                n_before = len(m.validators) + len(m.serializers)
+                if len(st.targets) == 1 and isinstance(st.targets[0], ast.Name):
+                    self._factory_member(m, st)
+                if len(m.validators) + len(m.serializers) == n_before:
+                    # not one of the shapes read syntactically (tuple of hooks, nested factories, keyword-only
+                    # defaults...): evaluated by the interpreter when a rule asks for the members
+                    m.pending_members.append(st)
             elif isinstance(st, ast.FunctionDef):
                 for d in st.decorator_list:
                     if isinstance(d, ast.Call):
@@ -109,6 +116,59 @@ class Schema:
                             m.serializers.append((names, m.ci.methods[st.name], d))
                         elif dn == "model_validator":
                             m.model_validators.append((m.ci.methods[st.name], d))
+
+    def resolve_members(self, I):
+        """evaluate the class-body assignments that were not read syntactically and register the pydantic field
+        validators / serializers they produce:  deco(*fields, **kw)(inner)  with inner a closure (its environment is
+        the factory's, as evaluated) or classmethod(closure)"""
+        if getattr(self, "_members_resolved", False):
+            return
+        self._members_resolved = True
+        from .state import Frame
+        for m in self.models.values() if isinstance(self.models, dict) else self.models:
+            for st in getattr(m, "pending_members", []):
+                try:
+                    v = I.eval_in_module(self.mod, st.value)
+                except Exception:       # noqa: BLE001
+                    continue
+                vals = list(v.args) if v.op in ("Tuple", "List") else [v]
+                for hv in vals:
+                    self._register_hook(m, hv)
+
+    def _register_hook(self, m, hv):
+        # hv = Call(Call(Ext pydantic.field_validator|field_serializer, *names, mode=..), inner)
+        if hv.op != "Call" or not hv.args or hv.args[0].op != "Call" or not hv.args[0].args or \
+                hv.args[0].args[0].op != "Ext":
+            return
+        deco = hv.args[0]
+        dn = deco.args[0].attr.split(".")[-1]
+        if dn not in ("field_validator", "field_serializer") or len(hv.args) < 2:
+            return
+        npos, kwn = deco.attr[1], deco.attr[2]
+        pos = list(deco.args[1:1 + npos])
+        kws = dict(zip(kwn, deco.args[1 + npos:]))
+        names = []
+        for a in pos:
+            if a.op == "Const" and isinstance(a.attr, str):
+                names.append(a.attr)
+            elif a.op == "Starred" and a.args[0].op in ("Tuple", "List"):
+                names += [x.attr for x in a.args[0].args if x.op == "Const"]
+        inner = hv.args[1]
+        if inner.op == "Call" and inner.args and inner.args[0].op == "Ext" and \
+                inner.args[0].attr == "builtins.classmethod" and len(inner.args) == 2:
+            inner = inner.args[1]
+        if inner.op not in ("Closure", "Func"):
+            return
+        fi = inner.attr
+        if inner.op == "Closure":
+            import copy
+            fi = copy.copy(fi)              # one FuncInfo per hook: each carries its own closure
+            fi.factory_closure = inner
+        if dn == "field_validator":
+            mode = kws.get("mode")
+            m.validators.append((names, mode.attr if mode is not None and mode.op == "Const" else "after", fi, None))
+        else:
+            m.serializers.append((names, fi, None))
 
     def _factory_member(self, m: Model, st: ast.Assign):
         """`name = factory(args...)` in a model body where the module-level factory returns
@@ -140,6 +200,14 @@ class Schema:
         for k in call.keywords:
             if k.arg:
                 env[k.arg] = k.value
+        # parameters not given in the call take their defaults
+        nd = len(a.defaults)
+        for j, d in enumerate(a.defaults):
+            pn = params[len(params) - nd + j]
+            env.setdefault(pn, d)
+        for kp, kd in zip(a.kwonlyargs, a.kw_defaults):
+            if kd is not None:
+                env.setdefault(kp.arg, kd)
         star = call.args[len(params):] if a.vararg is not None else []
         names = []
         for x in deco.args:
